@@ -290,6 +290,20 @@ protected:
       handleFrame(sid, *frame);
     }
 
+    // An unparsed remainder longer than the largest acceptable frame (payload
+    // limit plus the 14-byte maximum header) can never complete into an
+    // acceptable frame: fail the connection instead of buffering without bound.
+    if (localBuffer.size() - offset > _maxFrameSize + 14)
+    {
+      sendClose(sid, 1009, "Message Too Big");
+      {
+        std::lock_guard<std::mutex> lock(_wsMutex);
+        _sessions.erase(sid);
+      }
+      closeSession(sid);
+      return;
+    }
+
     // Put unconsumed remainder back
     if (offset < localBuffer.size())
     {
